@@ -23,6 +23,8 @@ EITHER zones (what the documentation leaves open; the oracle accepts both):
   E6  ill-conditioned ratios (Tajimas_D, Fst, genetic_relatedness(proportion=True), trait_correlation,
       trait_linear_model): compared only when the reference denominator is > 1e-6 in magnitude.
   E7  errors: which exception type is raised for an invalid argument is not checked, only that one is.
+  E9  kc_distance with internal samples: the contribution of a pair (internal sample, descendant) is not
+      documented; KC distances are checked on trees whose samples are all tips (rf_distance on all).
   E8  pair_coalescence_counts: whether a pair of samples one of which is an ancestor of the other
       "coalesces" (in the ancestor) is not documented; counted or not counted are both accepted (the whole
       result must follow one convention).
@@ -46,19 +48,19 @@ ID = "C08"
 RTOL = 1e-9
 ATOL = 1e-12
 
-FAMILIES = ["general", "named", "afs", "matrix", "trait", "topo", "ld", "meta", "threads"]
+FAMILIES = ["general", "named", "afs", "matrix", "trait", "topo", "ld", "meta", "threads", "named", "dist"]
 
 
 def cases(tier, seed):
-    n = 4000 if tier == "quick" else 400000
+    n = 6000 if tier == "quick" else 600000
     yield {"fam": "d16-witness", "k": 0}
-    tsan_every = 40 if tier == "quick" else 25
+    tsan_every = 90 if tier == "quick" else 220
     for k in range(n):
         yield {"fam": FAMILIES[k % len(FAMILIES)], "k": k // len(FAMILIES)}
         if k % tsan_every == 7:
             yield {"fam": "tsan", "k": k // tsan_every}
-        if k % 50 == 11:
-            yield {"fam": "msprime", "k": k // 50}
+        if k % 40 == 11:
+            yield {"fam": "msprime", "k": k // 40}
 
 
 # ---------------------------------------------------------------------------------------- inputs
@@ -320,9 +322,39 @@ def strictify(f, total):
     return g
 
 
+def negative_arguments(cs, rng):
+    """Documented preconditions: sample sets hold sample nodes only; windows are increasing, start at 0 and
+    end at the sequence length.  A value returned for such arguments has no definition (E7: any exception)."""
+    ts, ref, ctx = cs.ts, cs.ref, cs.ctx
+    L = ref.L
+    nons = [u for u in range(ref.N) if u not in ref.sidx]
+    mode = rng.choice(["site", "branch", "node"])
+    trials = []
+    if nons:
+        bad = [rng.choice(nons)] + rng.sample(ref.samples, rng.randint(0, min(2, ref.n)))
+        rng.shuffle(bad)
+        trials.append(("non-sample-node", f"diversity(sample_sets=[{bad}], mode={mode})",
+                       lambda: ts.diversity([bad], mode=mode)))
+        trials.append(("non-sample-node", f"divergence(sample_sets=[{bad}, {ref.samples[:1]}], mode={mode})",
+                       lambda: ts.divergence([bad, ref.samples[:1]], mode=mode)))
+        trials.append(("non-sample-node", f"allele_frequency_spectrum(sample_sets=[{bad}])",
+                       lambda: ts.allele_frequency_spectrum([bad])))
+        trials.append(("non-sample-node", f"divergence_matrix(sample_sets=[{bad}])",
+                       lambda: ts.divergence_matrix([bad])))
+    for w in ([L / 4, L], [0.0, L / 2], [0.0, L / 2, L / 4, L], [0.0, L / 2, L / 2, L], [0.0, L, 2 * L], [0.0]):
+        trials.append(("bad-windows", f"diversity(windows={w}, mode={mode})",
+                       lambda w=w: ts.diversity(windows=w, mode=mode)))
+    name, what, thunk = rng.choice(trials)
+    ok, got = call(ctx, thunk)
+    ctx.count("negative-arguments")
+    if ok:
+        ctx.violation(f"arguments/{name}-accepted", f"{what} returned {_fmt(got)} instead of raising", cs.detail())
+
+
 def fam_general(cs, rng):
     ts, ref, ctx = cs.ts, cs.ref, cs.ctx
     n = ref.n
+    negative_arguments(cs, rng)
     for rep in range(4):
         mode = rng.choice(["site", "branch", "node"])
         polarised = rng.random() < 0.5
@@ -349,11 +381,13 @@ def fam_general(cs, rng):
         total = W.sum(axis=0)
         strict = rng.random() < 0.5
         zero_ok = bool(np.allclose(f(total * 0.0), 0) and np.allclose(f(total), 0))
-        if strict and not zero_ok and kind == "poly" and rng.random() < 0.7:
-            g = strictify(f, total)
+        if strict and not zero_ok and rng.random() < 0.85:
+            g = strictify(f, total) if kind == "poly" else None
             if g is not None:
                 f = g
                 zero_ok = bool(np.allclose(f(total * 0.0), 0) and np.allclose(f(total), 0))
+            else:
+                strict = False
         what = (f"{'sample_count_stat' if use_counts else 'general_stat'}(mode={mode}, polarised={polarised}, "
                 f"span_normalise={span_normalise}, strict={strict}, windows={windows}, W={W.tolist()})")
         if use_counts:
@@ -1794,7 +1828,7 @@ def fam_tsan(case, ctx, rng):
 
     big = make_big_ts(rng)
     ctx.sig(("C08", "tsan", case["k"], big.num_trees, big.num_sites))
-    reps = 5 if case.get("tier") == "quick" else 10
+    reps = 5 if case.get("tier") == "quick" else 12
     nthreads = rng.choice([4, 8, 16])
     seed = rng.randrange(1 << 30)
     env = B.run_env("tsan", tsandir, os.environ["VERIF_REPO"])
@@ -1848,9 +1882,169 @@ def fam_tsan(case, ctx, rng):
 
 fam_tsan.own_input = True
 
+# ---------------------------------------------------------------------------------------- family: msprime
+
+
+def fam_msprime(case, ctx, rng):
+    """Tolerance-only input class: simulated tree sequences with arbitrary double coordinates and times,
+    pushed through the same oracles (all tolerances are relative to the magnitude of the summed terms)."""
+    import msprime
+
+    from lib.tsk import from_tables
+
+    seed = rng.randrange(1, 1 << 30)
+    n = rng.randint(3, 7)
+    discrete = rng.random() < 0.3
+    ts = msprime.sim_ancestry(n, ploidy=1, sequence_length=10, recombination_rate=rng.choice([0.05, 0.15]),
+                              random_seed=seed, discrete_genome=discrete)
+    ts = msprime.sim_mutations(ts, rate=rng.choice([0.02, 0.1]), random_seed=seed, discrete_genome=discrete)
+    if ts.num_trees > 12 or ts.num_sites > 12:
+        ts = ts.keep_intervals([[0, 3]], simplify=False).trim() if False else ts
+    m = from_tables(ts.dump_tables())
+    m.schemas = {}
+    m.metadata_schema = ""
+    m.provenances = []
+    if len(m.sites) > 10:
+        # keep the reference cheap: drop sites beyond the first ten (with their mutations)
+        keep = 10
+        m.sites = m.sites[:keep]
+        muts = [x for x in m.mutations if x[0] < keep]
+        old = [k for k, x in enumerate(m.mutations) if x[0] < keep]
+        remap = {o: i for i, o in enumerate(old)}
+        m.mutations = [(a, b, c, remap.get(d, NULL), e, f) for a, b, c, d, e, f in muts]
+    m.populations = []
+    m.individuals = []
+    m.nodes = [(f, t, NULL, NULL, b"") for f, t, _, _, _ in m.nodes]
+    cs = Case(m, ctx)
+    ctx.sig(("C08", "msprime", m.signature()))
+    ctx.feature("msprime:" + ("discrete" if discrete else "continuous"))
+    fn = rng.choice([fam_general, fam_named, fam_named, fam_afs, fam_matrix, fam_topo, fam_meta, fam_trait])
+    ctx.count("msprime-inputs")
+    fn(cs, rng)
+
+
+fam_msprime.own_input = True
+
+# ---------------------------------------------------------------------------------------- family: dist
+
+
+def gen_coalescent_pair(rng):
+    """Two tree sequences over the same sample nodes 0..n-1 whose trees all have a single root and no
+    unary nodes (what kc_distance / rf_distance require); multifurcations allowed; with one tree per
+    sequence an internal node may be a sample in both."""
+    n = rng.randint(2, 6)
+    L = rng.choice([4.0, 8.0, 16.0])
+    single = rng.random() < 0.3
+    out = []
+    extra_sample = single and rng.random() < 0.5 and n >= 3
+    for which in range(2):
+        m = RowModel(L)
+        leaf_times = [0.0 if rng.random() < 0.8 else rng.randint(0, 2) / 2 for _ in range(n)] if which == 0 else None
+        if which == 1:
+            leaf_times = [out[0].nodes[u][1] for u in range(n)]
+        m.nodes = [(NODE_IS_SAMPLE, leaf_times[u], NULL, NULL, b"") for u in range(n)]
+        nb = 0 if single else rng.randint(0, 2)
+        pts = sorted(rng.sample([k * L / 8 for k in range(1, 8)], nb))
+        bounds = [0.0] + pts + [L]
+        edges = []
+        for l, r in zip(bounds[:-1], bounds[1:]):
+            lineages = list(range(n))
+            t = max(leaf_times)
+            first = True
+            while len(lineages) > 1:
+                kk = min(len(lineages), rng.choice([2, 2, 2, 3]))
+                ch = rng.sample(lineages, kk)
+                t += rng.randint(1, 4) / 2
+                p_ = len(m.nodes)
+                flags = NODE_IS_SAMPLE if (extra_sample and first and len(lineages) > kk) else 0
+                first = False
+                m.nodes.append((flags, t, NULL, NULL, b""))
+                for c in ch:
+                    edges.append((l, r, p_, c, b""))
+                    lineages.remove(c)
+                lineages.append(p_)
+        m.edges = sorted(edges, key=lambda e: (m.nodes[e[2]][1], e[2], e[3], e[0]))
+        out.append(m)
+    if out[0].samples() != out[1].samples():
+        # the extra internal sample must be the same node id in both sequences; otherwise drop it
+        for m in out:
+            m.nodes = [((f & ~NODE_IS_SAMPLE) if u >= n else f, t, p_, i, md) for u, (f, t, p_, i, md) in enumerate(m.nodes)]
+    return out
+
+
+def kc_vectors(ref, t):
+    """Kendall & Colijn (2016): m = (edges from the root to the MRCA of each sample pair, then 1 per sample),
+    M = (time from the root to the MRCA of each pair, then the branch length above each sample)."""
+    fr = t.fr
+    samples = ref.samples
+    roots = [u for u in set(fr.parent.values()) | set(fr.parent) if u not in fr.parent]
+    root = roots[0]
+    mvec, Mvec = [], []
+    for a, b in itertools.combinations(samples, 2):
+        mr = fr.mrca(a, b)
+        mvec.append(float(fr.depth(mr)))
+        Mvec.append(ref.m.time(root) - ref.m.time(mr))
+    for u in samples:
+        mvec.append(1.0)
+        Mvec.append(fr.branch_length(u))
+    return np.array(mvec), np.array(Mvec)
+
+
+def fam_dist(case, ctx, rng):
+    m1, m2 = gen_coalescent_pair(rng)
+    cs1, cs2 = Case(m1, ctx), Case(m2, ctx)
+    ts1, ts2, r1, r2 = cs1.ts, cs2.ts, cs1.ref, cs2.ref
+    ctx.sig(("C08", "dist", m1.signature(), m2.signature()))
+    det = {"model1": m1.to_json(), "model2": m2.to_json()}
+    lams = [0.0, 1.0, rng.randint(1, 7) / 8]
+    if any(t.fr.kids(u) for r_ in (r1, r2) for t in r_.trees for u in r_.samples):
+        # E9: how a pair (internal sample, its descendant) enters the KC vectors is not documented
+        # ("treated identically to sample tips"): KC is only checked on trees whose samples are all tips
+        lams = []
+        ctx.feature("dist:internal-sample-kc-skipped")
+    total = {lam: 0.0 for lam in lams}
+    for i, t1 in enumerate(r1.trees):
+        for j, t2 in enumerate(r2.trees):
+            lo, hi = max(t1.left, t2.left), min(t1.right, t2.right)
+            v1, v2 = kc_vectors(r1, t1), kc_vectors(r2, t2)
+            a, b = ts1.at_index(i, sample_lists=True), ts2.at_index(j, sample_lists=True)
+            for lam in lams:
+                e = float(np.sqrt((((1 - lam) * v1[0] + lam * v1[1] - (1 - lam) * v2[0] - lam * v2[1]) ** 2).sum()))
+                if hi > lo:
+                    total[lam] += e * (hi - lo) / r1.L
+                ok, got = call(ctx, a.kc_distance, b, lam)
+                ctx.count("kc_distance:tree")
+                if not ok:
+                    ctx.violation("kc_distance/unexpected-error", f"Tree.kc_distance(lambda={lam}) raised {got}", det)
+                elif not abs(got - e) <= 1e-9 * (1 + abs(e)):
+                    ctx.violation("kc_distance/tree-definition",
+                                  f"Tree.kc_distance(tree {i}, tree {j}, lambda={lam}) = {got!r} expected {e!r}", det)
+            # Robinson-Foulds: clades (sets of samples below a node) present in one tree only
+            c1 = set(frozenset(t1.below[u]) for u in range(r1.N) if t1.fr.in_tree(u))
+            c2 = set(frozenset(t2.below[u]) for u in range(r2.N) if t2.fr.in_tree(u))
+            e = len(c1 ^ c2)
+            ok, got = call(ctx, a.rf_distance, b)
+            ctx.count("rf_distance")
+            if not ok:
+                ctx.violation("rf_distance/unexpected-error", f"Tree.rf_distance raised {got}", det)
+            elif got != e:
+                ctx.violation("rf_distance/clade-definition",
+                              f"Tree.rf_distance(tree {i}, tree {j}) = {got!r} expected {e!r}", det)
+    for lam in lams:
+        ok, got = call(ctx, ts1.kc_distance, ts2, lam)
+        ctx.count("kc_distance:treeseq")
+        if not ok:
+            ctx.violation("kc_distance/unexpected-error", f"TreeSequence.kc_distance(lambda={lam}) raised {got}", det)
+        elif not abs(got - total[lam]) <= 1e-9 * (1 + abs(total[lam])):
+            ctx.violation("kc_distance/treeseq-span-weighted-average",
+                          f"TreeSequence.kc_distance(lambda={lam}) = {got!r} expected {total[lam]!r}", det)
+
+
+fam_dist.own_input = True
+
 # ---------------------------------------------------------------------------------------- dispatch
 
-FAM_FUNCS = {"general": fam_general, "named": fam_named, "afs": fam_afs, "matrix": fam_matrix, "trait": fam_trait, "topo": fam_topo, "ld": fam_ld, "meta": fam_meta, "threads": fam_threads, "tsan": fam_tsan, "d16-witness": fam_d16}
+FAM_FUNCS = {"general": fam_general, "named": fam_named, "afs": fam_afs, "matrix": fam_matrix, "trait": fam_trait, "topo": fam_topo, "ld": fam_ld, "meta": fam_meta, "threads": fam_threads, "tsan": fam_tsan, "msprime": fam_msprime, "dist": fam_dist, "d16-witness": fam_d16}
 
 
 def run_case(case, ctx):
